@@ -45,8 +45,15 @@ SETTING_VALUES = {
 }
 
 
-def centre(e: int) -> List[float]:
-    return [40.0 * e, 0.0, 0.0]
+def centre(e: int, shift: Optional[List[float]] = None, kind: str = "") -> List[float]:
+    """entity e lives around (40 e, 0, 0) + the program's global shift (models far from the origin).  A Wedge revolves
+    about the global x axis and a Grid lies in the plane z = 0, so they only take the components that keep them valid."""
+    s = list(shift or [0.0, 0.0, 0.0])
+    if kind == "wedge":
+        s = [s[0], 0.0, 0.0]
+    elif kind == "stack":
+        s = [s[0], s[1], 0.0]
+    return [40.0 * e + s[0], s[1], s[2]]
 
 
 def n_ops(ent) -> int:
@@ -91,8 +98,8 @@ def _perp_frame(draw):
 
 
 @st.composite
-def entity(draw, e: int, kind: str):
-    c = centre(e)
+def entity(draw, e: int, kind: str, shift: Optional[List[float]] = None):
+    c = centre(e, shift, kind)
     if kind == "box":
         p1 = [c[i] + draw(_f(-2.0, 2.0)) for i in range(3)]
         d = [draw(_f(0.5, 5.0)) * draw(st.sampled_from([1, -1])) for _ in range(3)]
@@ -106,7 +113,9 @@ def entity(draw, e: int, kind: str):
         y0 = draw(_f(0.5, 3.0)) if kind != "extrude" else draw(_f(-2.0, 2.0))
         s = draw(_f(-0.3, 0.3)) * a if kind == "extrude" else 0.0
         zj = [draw(_f(-0.1, 0.1)) for _ in range(4)] if kind == "extrude" and draw(st.booleans()) else [0.0] * 4
-        face = [[c[0], y0, zj[0]], [c[0] + a, y0, zj[1]], [c[0] + a + s, y0 + b, zj[2]], [c[0] + s, y0 + b, zj[3]]]
+        y0 += c[1]
+        face = [[c[0], y0, c[2] + zj[0]], [c[0] + a, y0, c[2] + zj[1]], [c[0] + a + s, y0 + b, c[2] + zj[2]],
+                [c[0] + s, y0 + b, c[2] + zj[3]]]
         if kind == "extrude":
             amount: Any = draw(_f(0.5, 3.0)) if draw(st.booleans()) else [draw(_f(-1.0, 1.0)), draw(_f(-1.0, 1.0)), draw(_f(0.5, 3.0))]
             return {"kind": kind, "face": face, "amount": amount}
@@ -124,8 +133,8 @@ def entity(draw, e: int, kind: str):
         return out
     if kind == "stack":
         nx, ny, rep = draw(st.sampled_from([(1, 1, 2), (2, 1, 1), (1, 2, 2), (2, 2, 1), (2, 2, 2), (3, 1, 1), (3, 2, 1), (1, 3, 2)]))
-        return {"kind": kind, "nx": nx, "ny": ny, "repeats": rep, "p1": [c[0] - draw(_f(0.5, 3.0)), -draw(_f(0.5, 3.0)), 0.0],
-                "p2": [c[0] + draw(_f(0.5, 3.0)), draw(_f(0.5, 3.0)), 0.0], "amount": draw(_f(0.5, 4.0))}
+        return {"kind": kind, "nx": nx, "ny": ny, "repeats": rep, "p1": [c[0] - draw(_f(0.5, 3.0)), c[1] - draw(_f(0.5, 3.0)), 0.0],
+                "p2": [c[0] + draw(_f(0.5, 3.0)), c[1] + draw(_f(0.5, 3.0)), 0.0], "amount": draw(_f(0.5, 4.0))}
     if kind == "stacked":
         p1 = [c[i] + draw(_f(-2.0, 2.0)) for i in range(3)]
         return {"kind": kind, "p1": p1, "dx": draw(_f(0.5, 4.0)), "dy": draw(_f(0.5, 4.0)), "h1": draw(_f(0.5, 3.0)),
@@ -169,8 +178,6 @@ def plan_chops(draw, ent, deleted: List[int], force_all: bool) -> None:
                         "z": [draw(_count) for _ in range(ent["repeats"])], "mode": "all" if full else "min"}
     elif k in ("cylinder", "ring", "hemisphere"):
         ent["chops"] = {"a": draw(_count), "r": draw(_count), "t": draw(_count), "mode": "all" if full else "api"}
-        if k == "hemisphere":
-            assert not full
     elif k == "stacked":
         ent["chops"] = [[draw(_count) for _ in range(3)], [draw(_count) for _ in range(3)]]
 
@@ -211,7 +218,8 @@ def _sides_for(ent, what: str) -> List[str]:
 
 @st.composite
 def program(draw, kinds: Optional[List[str]] = None, max_entities: int = 3, max_statements: int = 10,
-            allow_delete: bool = True, sphere_copy: bool = False, only: Optional[List[str]] = None):
+            allow_delete: bool = True, sphere_copy: bool = False, only: Optional[List[str]] = None, far: bool = True,
+            finishes: Optional[List[str]] = None):
     ne = draw(st.integers(1, max_entities))
     chosen: List[str] = []
     for e in range(ne):
@@ -220,7 +228,13 @@ def program(draw, kinds: Optional[List[str]] = None, max_entities: int = 3, max_
         if sum(1 for x in chosen if x in ("cylinder", "hemisphere", "ring")) >= 1 and k in ("cylinder", "hemisphere", "ring"):
             k = "box"  # at most one round shape per program keeps the block count (and the cost) bounded
         chosen.append(k)
-    entities = [draw(entity(e, k)) for e, k in enumerate(chosen)]
+    shift = None
+    size = draw(st.sampled_from([0.0, 0.0, 0.0, 1e3, 1e5, 2e6])) if far else 0.0
+    if size:
+        shift = [size * draw(st.sampled_from([1.0, 0.0, -1.0, 2.1])) for _ in range(3)]
+        if not any(shift):
+            shift = None
+    entities = [draw(entity(e, k, shift)) for e, k in enumerate(chosen)]
     if sphere_copy:
         for ent in entities:
             if ent["kind"] == "hemisphere":
@@ -228,7 +242,8 @@ def program(draw, kinds: Optional[List[str]] = None, max_entities: int = 3, max_
     ops = _ops_of(entities)
 
     # deletions first: the chop plans depend on them
-    deletable = [(e, i) for (e, i) in ops if entities[e]["kind"] not in ("hemisphere", "stacked")]
+    # (a copied Hemisphere is the F15 witness; at most two operations go, so a sphere always keeps a shell block)
+    deletable = [(e, i) for (e, i) in ops if entities[e]["kind"] != "stacked" and not entities[e].get("copy")]
     deleted: List[Tuple[int, int]] = []
     if allow_delete and len(ops) >= 2 and deletable and draw(st.integers(0, 3)) == 0:
         for _ in range(draw(st.integers(1, 2))):
@@ -360,7 +375,11 @@ def program(draw, kinds: Optional[List[str]] = None, max_entities: int = 3, max_
     script = list(draw(st.permutations(script))) if len(script) > 1 else script
     for e in range(ne):
         script.insert(draw(st.integers(0, len(script))), {"do": "add", "ent": e})
-    return {"entities": entities, "script": script}
+    finish = draw(st.sampled_from(finishes or ["write", "write", "write", "assemble", "clear+assemble", "backport", "write-twice"]))
+    case = {"entities": entities, "script": script, "finish": "write" if sphere_copy else finish}
+    if shift:
+        case["shift"] = shift
+    return case
 
 
 # --------------------------------------------------------------------------------------------------
@@ -423,9 +442,16 @@ def _make_entity(cb, e: int, ent, run: Run):
             shape.chop_radial(count=ch["r"])
             shape.chop_tangential(count=ch["t"])
         else:
-            ncore = 4 if k == "cylinder" else 0
+            # every operation in every direction, with the count of its family: core blocks are tangential in both
+            # sketch directions; every third shell block of a sphere closes the dome, its third direction is tangential
+            ncore = {"cylinder": 4, "ring": 0, "hemisphere": 4}[k]
             for i, op in enumerate(shape.operations):
-                counts = (ch["t"], ch["t"], ch["a"]) if i < ncore else (ch["r"], ch["t"], ch["a"])
+                if i < ncore:
+                    counts = (ch["t"], ch["t"], ch["a"])
+                elif k == "hemisphere" and (i - ncore + 1) % 3 == 0:
+                    counts = (ch["r"], ch["t"], ch["t"])
+                else:
+                    counts = (ch["r"], ch["t"], ch["a"])
                 for ax in range(3):
                     op.chop(ax, count=counts[ax])
         return shape, list(shape.operations)
